@@ -48,7 +48,7 @@ func runTree(o *opts) {
 			cwd:     []string{"", "", "sub/deep"}[rr.intn(3)],
 			target:  []string{"same", "moved", "clone"}[rr.intn(3)],
 			artPath: []string{"out", "data/out", "a/b/c"}[rr.intn(3)],
-			invalid: rr.chance(1, 12), twoStages: rr.chance(1, 3),
+			invalid: rr.chance(1, 12) || i%9 == 4, twoStages: rr.chance(1, 3),
 			foreign: rr.chance(1, 10),
 		}
 		if o.shm == "" && sc.cacheLoc == "xdev" {
@@ -103,7 +103,9 @@ func oneTree(o *opts, r *rng, s *summary, i int, sc treeScenario, distinct map[s
 			art.sortEnts()
 		}
 		if sc.invalid {
-			if r.chance(1, 2) {
+			if sc.kind == "norec" || (i%9 != 4 && r.chance(1, 2)) {
+				// (sub-directories of a non-recursive artifact are not tracked: only a FILE with such
+				// a name makes its commit fail)
 				art.set(invalidUtf8Name(r), nFile([]byte("x")))
 			} else {
 				// a sub-directory with such a name (its files are fine), possibly one level down
